@@ -13,13 +13,15 @@ T1=$(cargo test --offline 2>&1 | grep -E "^test result" | awk '{p+=$4; f+=$6} EN
 B1=$(cargo build --offline --features serde 2>&1 | tail -1)
 DN=$(basename $DEMO .rs)
 cp $DEMO tests/$DN.rs
-D1=$(cargo test --offline --test $DN 2>&1 | grep -E "^test result" | head -1)
+FEAT=""
+case $ID in C16*) FEAT="--features serde";; esac
+D1=$(cargo test --offline $FEAT --test $DN 2>&1 | grep -E "^test result|^error(\[E[0-9]+\])?:" | head -1)
 git apply -R $PATCH
-D0=$(cargo test --offline --test $DN 2>&1 | grep -E "^test result" | head -1)
+D0=$(cargo test --offline $FEAT --test $DN 2>&1 | grep -E "^test result" | head -1)
 echo "$ID: with change: suite [$T1], serde build [$B1], demo [$D1]; without change: demo [$D0]"
 OK=1
 echo "$T1" | grep -q " 0 failed" || OK=0
-echo "$D1" | grep -q "FAILED" || OK=0
+echo "$D1" | grep -qE "FAILED|^error" || OK=0
 echo "$D0" | grep -q "test result: ok" || OK=0
 if [ $OK = 1 ]; then
   mkdir -p /verif/seeded/$ID
